@@ -1,4 +1,5 @@
 import OdcGeo.Model.C15
+import OdcGeo.Drv.C15Glue
 namespace OdcGeo.C15.Drv
 open OdcGeo OdcGeo.IO OdcGeo.C15
 
@@ -89,6 +90,6 @@ def run (args : List String) : Option String :=
     if l = 0 then none else
     let (a, b) := ovrSize w h l
     pure s!"{a} {b}"
-  | _ => none
+  | args => OdcGeo.C15.GlueDrv.run args
 
 end OdcGeo.C15.Drv
